@@ -50,6 +50,21 @@ def _new_uid(prog):
     return max([u[1] for u in a.structs()] + [0]) + 100 + len(prog["inputs"])
 
 
+def _alias_ref(prog, a, m, rng, p=0.4):
+    """`m`, or (with probability p) a provide()-alias of it: the second call of a double call reaches the
+    method through another Method object"""
+    if rng.random() >= p:
+        return m
+    al = [k for k in a.alias if a.resolve(k) == m and not any(x["id"] == k and x.get("group") for x in prog.get("aliases", []))]
+    if not al:
+        k = 0
+        while f"z{k}" in a.alias or any(x["id"] == f"z{k}" for x in prog.get("aliases", [])):
+            k += 1
+        prog.setdefault("aliases", []).append({"id": f"z{k}", "target": m, "via": None})
+        al = [f"z{k}"]
+    return rng.choice(al)
+
+
 def inject(rng, prog, kind):
     prog = copy.deepcopy(prog)
     a = Analysis(prog)
@@ -79,15 +94,15 @@ def inject(rng, prog, kind):
             for lst in _lists(prog):
                 for i, (k, n) in enumerate(lst):
                     if k == "C" and n["sid"] == sid:
-                        lst.insert(i + 1 if rng.random() < 0.5 else i, _new_site(prog, m, rng))
+                        lst.insert(i + 1 if rng.random() < 0.5 else i, _new_site(prog, _alias_ref(prog, a, m, rng), rng))
                         break
             t = a.sites[sid].body
         elif how == "same-body":
             body.append(_new_site(prog, m, rng))
-            body.append(_new_site(prog, m, rng))
+            body.append(_new_site(prog, _alias_ref(prog, a, m, rng), rng))
         elif how == "disabled-calls":  # enable_call does not make calls exclusive
             body.append(_new_site(prog, m, rng, en=True))
-            body.append(_new_site(prog, m, rng, en=True))
+            body.append(_new_site(prog, _alias_ref(prog, a, m, rng), rng, en=True))
         elif how == "two-chains":
             q1 = _new_method(prog, rng, [_new_site(prog, m, rng)])
             q2 = _new_method(prog, rng, [_new_site(prog, m, rng)])
@@ -96,7 +111,7 @@ def inject(rng, prog, kind):
         else:
             u = _new_uid(prog)
             body.append(["If", {"u": u, "arms": [[_new_input(prog), [_new_site(prog, m, rng)]]], "else": None}])
-            body.append(["If", {"u": u + 1, "arms": [[_new_input(prog), [_new_site(prog, m, rng)]]], "else": None}])
+            body.append(["If", {"u": u + 1, "arms": [[_new_input(prog), [_new_site(prog, _alias_ref(prog, a, m, rng), rng)]]], "else": None}])
         desc = f"double-call of {m} from {t} ({how})"
     elif kind == "recursion":
         if not a.mdefs:
